@@ -256,7 +256,14 @@ def make_providers() -> list[Provider]:
                       _model_observe, _model_mutators()))
     P.append(Provider('peaks.Model (operands of +)', (1, 2), lambda k: comp[k][0],
                       _model_observe, {'used as operand': lambda m: (m + pm.PolynomialModel(degree=3, prefix='zz_')).with_prefix('w_')}))
-    P.append(Provider('peaks.Model (receiver of with_prefix)', (1, 2), lambda k: bases[k], _model_observe,
+    def _receiver_observe(m):
+        # what a model derived from the receiver looks like is observed *before* the receiver's own
+        # properties are read: reading a property of a model must not change what is derived from it later
+        d = _model_observe(m.with_prefix('zz_'))
+        d['bounds_keys_are_parameters'] = all(k in d['names'] for k, _ in d['bounds'])
+        return {'derived': d, 'self': _model_observe(m)}
+
+    P.append(Provider('peaks.Model (receiver of with_prefix)', (1, 2), lambda k: bases[k], _receiver_observe,
                       {'call with_prefix on it': lambda m: m.with_prefix('zz_'),
                        'add to another model': lambda m: pm.PolynomialModel(degree=4, prefix='yy_') + m}))
     # CIF builder combinators
